@@ -438,6 +438,24 @@ def run(F, rep, tier):
         if h["kind"] not in ("fn", "method"):
             continue
         sinks[n] = h
+    nalts = [0]
+
+    def shortcuts(h, name, prim):
+        """no shortcut past the primitive: every value the operation can return (operand of a `return`, tail of the body, split over
+        if / match) is computed by the named primitive - an early `return *self` for 'easy' operands skips the rounding the primitive performs"""
+        if name.rsplit("::", 1)[-1] in ("even", "odd", "eq", "partial_cmp"):
+            return    # predicates and orderings: the returned truth value is a test on the primitive's result, judged by the operand rule above
+        for line, alt in method_value(F, W, h, returns=True):
+            if alt == {("static", "None")}:
+                continue    # the domain error of sqrt / ln / pow (no number is returned)
+            nalts[0] += 1
+            k2 = "return:%s" % name.replace(NUM, "FeelNumber")
+            if any(p[1] == prim for p in prims_in(alt)):
+                rep.ok(r4, k2, "a returned value is computed by %s" % prim)
+            else:
+                rep.violation(r4, k2, "%s returns a value that does not pass through %s (line %s: %s) - a shortcut past the specified primitive" % (
+                    name, prim, line, sorted(map(str, alt))[:2] or "constant"), "%s:%s" % (h["file"], line))
+
     for pat, (prim, operands, rounding) in OPS.items():
         n = pat % NUM
         cands = [k for k in sinks if k == n or (k.startswith(n.split(">::")[0]) and k.endswith(n.split(">::")[-1]) and "<" + NUM + " as" in k and ("<" + NUM + ">") in k)]
@@ -470,6 +488,7 @@ def run(F, rep, tier):
                 rep.violation(r4, key, "%s uses rounding %s with %s, expected %s" % (cands[0], rs, prim, rounding), "%s:%s" % (h["file"], h["line"]))
                 continue
         rep.ok(r4, key, "%s(%s%s)" % (prim, ", ".join(operands), (", " + rounding) if rounding else ""))
+        shortcuts(h, cands[0], prim)
     # round(): rescale with the negated scale
     rnd = F.hir.get(NUM + "::round")
     if rnd is None:
@@ -484,9 +503,11 @@ def run(F, rep, tier):
             ok = sorted(leaf_names(a)) == ["self"] and bool(neg) and sorted(leaf_names(b2)) == ["rhs"]
         if ok:
             rep.ok(r4, "op:FeelNumber::round", "decNumberRescale(self, decQuadMinus(scale))")
+            shortcuts(rnd, NUM + "::round", "decNumberRescale")
         else:
             rep.violation(r4, "op:FeelNumber::round", "round() is not decNumberRescale(self, -scale): %s" % sorted(map(str, vs))[:2], "%s:%s" % (rnd["file"], rnd["line"]))
     rep.floor(r4, "operations judged", nops, 19)
+    rep.floor(r4, "returned values judged", nalts[0], 14)
 
     # R02.5: every function of number.rs returning a FeelNumber (or Option/Result of it) built from a non-finite source,
     # restricted to those reachable from the evaluation entry points (a constructor nobody can reach with run-time operands proves nothing)
@@ -761,9 +782,11 @@ def subst_self_rhs(vs, argv):
     return out
 
 
-def method_value(F, W, h, _stack=(), inline=True):
+def method_value(F, W, h, _stack=(), inline=True, returns=False):
     """value-set (primitive trees over self/rhs) a FeelNumber method computes, ignoring control flow.
-    Calls and overloaded operators that resolve to another FeelNumber operation (`*self = *self + rhs`) are inlined."""
+    Calls and overloaded operators that resolve to another FeelNumber operation (`*self = *self + rhs`) are inlined.
+    returns=True: instead, the list of (line, value-set) of every value the method can return - the operand of each `return` and the tail
+    expression of the body, split over if / match / block tails (closures are not entered)."""
     env = {}
     names = [p.get("name") for p in h["params"]]
     for i, nm in enumerate(names):
@@ -817,6 +840,12 @@ def method_value(F, W, h, _stack=(), inline=True):
             for a in argv:
                 out |= a
             return out
+        if k == "Closure":
+            # the value a closure yields when called (`cond.then(|| Self(..))`, `map(|n| ..)`): its body's tail
+            b = e.get("body")
+            while isinstance(b, dict) and b.get("k") == "Block" and not b.get("b", {}).get("stmts") and b.get("b", {}).get("e") is not None:
+                b = b["b"]["e"]
+            return val(b) if isinstance(b, dict) else set()
         if k in ("Unary",):
             if e.get("callee"):
                 sv = sibling(e["callee"], [val(e["a"])])
@@ -840,6 +869,40 @@ def method_value(F, W, h, _stack=(), inline=True):
         return True
     from facts import walk_hir
     walk_hir(h["body"], visit)
+    if returns:
+        alts = []
+
+        def tails(e):
+            e0 = e
+            while isinstance(e0, dict) and e0.get("k") in ("DropTemps", "Paren"):
+                e0 = e0.get("e")
+            if not isinstance(e0, dict):
+                return
+            k = e0.get("k")
+            if k == "Block":
+                if e0.get("b", {}).get("e") is not None:
+                    tails(e0["b"]["e"])
+            elif k == "If":
+                tails(e0.get("then"))
+                if e0.get("else") is not None:
+                    tails(e0["else"])
+            elif k == "Match":
+                for a in e0.get("arms", []):
+                    tails(a.get("b"))
+            elif k == "Ret":
+                pass    # collected below
+            else:
+                alts.append((e0.get("l"), val(e0)))
+
+        def rets(n, parents):
+            if n.get("k") == "Closure":
+                return False
+            if n.get("k") == "Ret" and n.get("e") is not None:
+                tails(n["e"])
+            return True
+        tails(h["body"])
+        walk_hir(h["body"], rets)
+        return alts
     return acc
 
 
